@@ -103,6 +103,10 @@ def run_case(case, drv):
             return False
         adm = {(v, p, k) for v in range(V) for p in range(L) for k in range(N) if not fixed(p, k)}
         box = [(v, p, k) for v in range(V) for p in range(L) for k in range(N)]
+        # tuples outside the index ranges are inadmissible as well (a loud IndexError is tolerated, an index is not)
+        outside = [(V, 1, 0), (0, L, 0), (0, 1, N), (V + 1, L + 2, N + 1)]
+        if V and L and N:
+            outside += [(-1, 1, min(1, N - 1)), (0, -1, 0), (0, 1, -1), (-V, -L, -N)]
         lookup = lambda u: o.get_var_index(*u)                                                         # noqa: E731
         tup = lambda k: o.get_var_tuple_index(k)                                                       # noqa: E731
         norm = lambda u: None if u is None else (int(u[0]), int(u[1]), int(u[2]))                       # noqa: E731
@@ -167,6 +171,20 @@ def run_case(case, drv):
                 break
         if (u in adm) != ma:
             res.disagree(f"{form} admissibility predicate of the model", u in adm, ma)
+    if form == "seq":
+        for u in outside:
+            try:
+                r = lookup(u)
+            except IndexError:
+                res.features.append("outside-tuple:IndexError")
+                continue
+            except Exception as e:  # noqa
+                res.fail("seq:lookup-outside-raises", f"tuple {u} outside the index ranges raised {e!r}")
+                break
+            res.features.append("outside-tuple:" + ("none" if r is None else "index"))
+            if r is not None:
+                res.fail("seq:lookup-inadmissible", f"tuple {u} lies outside the index ranges (V={V}, L={L}, N={N}) but maps to index {int(r)}")
+                break
     for k, u in zip(idxs, impl_tup):
         if k < n:
             if u is None or isinstance(u, str) or lookup(u) != k:
